@@ -246,7 +246,9 @@ def rule_typestate(m):
 
         def is_lookup(t):
             return (t[0] == 'mcall' and t[1].split('::')[-1] in LOOKUPS and
-                    t[1].split('::')[0] == 'std') or (t[0] == 'call' and t[1] in ('std::find', 'std::find_if'))
+                    t[1].split('::')[0] == 'std') or (t[0] == 'call' and t[1] in (
+                        'std::find', 'std::find_if', 'std::find_if_not', 'std::max_element', 'std::min_element', 'std::adjacent_find',
+                        'std::lower_bound', 'std::upper_bound', 'std::find_first_of', 'std::search'))
         for n in f.nodes:
             if n['k'] != 'CXXOperatorCallExpr' or 'callee' not in n:
                 continue
@@ -276,6 +278,20 @@ def rule_typestate(m):
                     if atom is None:
                         return False
                     for (at, pol) in implied(tt.t(atom), ix == 0):
+                        # the searched range is known not to be empty (max_element / min_element then return an element)
+                        for (dn0, rhs0) in lk:
+                            lt0 = tt.t(rhs0)
+                            if lt0[0] == 'call' and lt0[1] in ('std::max_element', 'std::min_element') and lt0[2] and \
+                                    lt0[2][0][0] == 'mcall' and lt0[2][0][1].endswith(('::begin', '::cbegin')):
+                                C = lt0[2][0][2]
+                                x0 = at
+                                while x0[0] in ('conv', 'cast'):
+                                    x0 = x0[2]
+                                if x0[0] == 'mcall' and x0[1].endswith('::empty') and x0[2] == C and not pol:
+                                    return True
+                                if x0[0] == 'bin' and x0[1] in ('!=', '>') and x0[2][0] == 'mcall' and x0[2][1].endswith('::size') and \
+                                        x0[2][2] == C and x0[3] == ('int', 0) and pol:
+                                    return True
                         if at[0] == 'bin' and at[1] in ('!=', '==') and t in (at[2], at[3]):
                             other = at[3] if at[2] == t else at[2]
                             if other[0] == 'mcall' and other[1].endswith(('::end', '::cend')) and ((at[1] == '!=') == pol):
